@@ -64,6 +64,14 @@ def model_value(m, kind, v):
             return float(r.as_fraction())
         except Exception:
             return str(r)
+    if kind == 'stream':
+        out = []
+        base = m.eval(z3.Int('pos'), model_completion=True)
+        base = base.as_long() if z3.is_int_value(base) else 0
+        for i in range(base, base + 256):
+            x = m.eval(to_z3(v.at(i)), model_completion=True)
+            out.append(x.as_long() % 256 if z3.is_int_value(x) else 0)
+        return {'from_pos_256': bytes(out).hex()}
     if kind == 'bytes':
         ln = m.eval(to_z3(v.length()), model_completion=True)
         ln = ln.as_long() if z3.is_int_value(ln) else 0
